@@ -8,6 +8,7 @@
                     poker hand that can be made from the cards (direct rule-based evaluation). *)
 From CKC Require Import Base.Prelude Base.Combs Spec.Layout Spec.Poker.
 From CKC Require Import Model.Five Model.HandRank Proofs.FiveFacts Proofs.CombFacts Proofs.HandFacts Proofs.C01 Proofs.TableFacts Proofs.C02.
+From Coq Require Import Sorting.Permutation.
 Open Scope N_scope.
 
 (* every entry point returns the rule-based value *)
@@ -36,6 +37,18 @@ Proof. exact attained_spec. Qed.
 Theorem C02_value5_is_rank : forall chk c, Hand5 c -> hand_rank_value chk c = Ok (value5 c).
 Proof. intros chk c H. exact (proj1 (value_ok chk c H)). Qed.
 
+(* slot order is irrelevant: the same six / seven cards in ANY two slot orders get the same value from every
+   entry point, and the rule-based value itself does not depend on the order *)
+Theorem C02_slot_order : forall chk n ws ws',
+  (n = 6 \/ n = 7)%nat -> HandN n ws -> Permutation ws ws' ->
+  hand_rank_value chk ws' = hand_rank_value chk ws /\
+  hand_rank_value_validated chk ws' = hand_rank_value_validated chk ws /\
+  rmap fst (hrvh chk ws') = rmap fst (hrvh chk ws).
+Proof. exact slot_order_spec. Qed.
+Theorem C02_best_value_slot_order : forall n ws ws',
+  (5 <= n)%nat -> HandN n ws -> Permutation ws ws' -> best_value5 ws = best_value5 ws'.
+Proof. exact best_value5_perm. Qed.
+
 (* non-vacuity: As Ks Qs Js Ts 2c 3d (a seven containing a royal flush) and a six *)
 Example C02_example :
   hand_rank_value false [layout 0 0; layout 12 3; layout 11 3; layout 1 1; layout 10 3; layout 9 3; layout 8 3] = Ok 1 /\
@@ -54,4 +67,6 @@ Print Assumptions C02_value.
 Print Assumptions C02_lower.
 Print Assumptions C02_attained.
 Print Assumptions C02_value5_is_rank.
+Print Assumptions C02_slot_order.
+Print Assumptions C02_best_value_slot_order.
 Print Assumptions C02_projection.
